@@ -10,12 +10,6 @@ FINDINGS = {
     "C09:nv-transpiler-carbon-gate-borrows-unallocated-electron": dict(
         cfg=dict(max_q=4, nv_hw=True, transp=True),
         ops=[["new"], ["new"], ["new"], ["md", 1], ["g2", 2, 0], ["flush"]]),
-    "C09:nv-epr-context-preallocates-pair-ids": dict(
-        cfg=dict(max_q=3, nv_hw=True, transp=False),
-        ops=[["ctx", 2, False], ["flush"]]),
-    "C09:sequential-keep-handles-stay-active": dict(
-        cfg=dict(max_q=3, nv_hw=False, transp=False),
-        ops=[["seq", 2, False], ["flush"]]),
 }
 
 
@@ -109,9 +103,9 @@ def correspond(ctx, runs, tag):
 def run(ctx):
     quick = ctx.tier == "quick"
     ctx.rule = ("host programs over handles (new, 1- and 2-qubit gates, measure in place / destructively, free, "
-                "create/recv keep of 1..3 pairs, create/recv EPR context of 1..3 pairs whose block measures the pair, "
+                "create/recv keep of 1..3 pairs (OKs delivered one per wait poll or all at the first), sequential keep of 1..3 pairs with a measuring post routine, create/recv EPR context of 1..3 pairs whose block measures the pair, "
                 "flush) generated op by op while running on the real SDK so that the host never exceeds the budget "
-                "(max_qubits, minus one on NV) and only addresses live handles; 19 configurations: generic 1..5, "
+                "(max_qubits, minus one on NV) and only addresses live handles; 19 configurations x 2 physical layouts (lowest unused physical qubit / physical qubit 0 owned by the link layer): generic 1..5, "
                 "NV 2..6 without and with the NV transpiler, generic config + NV compiler 3 and 5; plus every "
                 "program of a reduced alphabet up to a fixed depth on small configurations; plus corpus and finding "
                 "witnesses.  A case is non-trivial if at least one flush executed an allocation, release, pair "
@@ -123,13 +117,16 @@ def run(ctx):
         "Coq evaluation of the model by vm_compute inside generated case files (no extraction)",
     ]
     ctx.assume += [
-        "environment contract fresh_delivery: a delivered pair names a physical qubit that is not mapped; responses "
-        "arrive in request order, one per wait poll; all pairs are reported as PHI_PLUS (no correction gates run)",
+        "environment contract fresh_delivery: a delivered pair names a physical qubit that is not mapped (physical "
+        "qubit 0 whenever that is free and the OK will be handled at once, else a never-used one); responses arrive in "
+        "request order, one per wait poll or all OKs of a request at its first poll (the controller holds back an OK "
+        "whose virtual ID is in use and retries at the next poll); OKs are not delivered before their request was "
+        "issued; all pairs are reported as PHI_PLUS (no correction gates run)",
         "modelled, not verified: instructions are abstracted to the events that touch the unit module (qalloc, qfree, "
         "pair delivery, gate/init/meas/mov operands); registers, arrays and branches are the object of C05/C14",
         "EPR operations covered: create_keep/recv_keep without post_routine and not sequential, create_context/"
-        "recv_context whose block applies H and measures the pair.  sequential=True with a measuring post_routine only "
-        "as the witness of a recorded finding.  Not covered: other post routines, "
+        "recv_context whose block applies H and measures the pair.  create_keep/recv_keep(sequential=True) "
+        "with a post routine that measures the pair.  Not covered: other post routines, "
         "measure-directly and remote-state-preparation requests, min_fidelity_all_at_end retry loops, operations "
         "inside an EPR block other than on the block's qubit, handles used after they were measured or freed",
         "an SDK refusal (AssertionError in _create_ent_qubits: NV, keep of n>=2 pairs while an ID below n is in use) "
@@ -147,7 +144,7 @@ def run(ctx):
         stats["refusals"] += 1 if s.refused else 0
         for o in ops:
             cov_ops[o[0]] = cov_ops.get(o[0], 0) + 1
-        ck = f"{'nv' if cfg.nv_hw else 'generic'}{'+transpiler' if cfg.transp else ''}/{cfg.max_q}"
+        ck = f"{'nv' if cfg.nv_hw else 'generic'}{'+transpiler' if cfg.transp else ''}/{cfg.max_q}{'/phys0-reserved' if cfg.reserve0 else ''}"
         cov_cfg[ck] = cov_cfg.get(ck, 0) + 1
         b = min(len(ops) // 10 * 10, 40)
         cov_len[f"{b}-{b + 9}"] = cov_len.get(f"{b}-{b + 9}", 0) + 1
@@ -179,9 +176,9 @@ def run(ctx):
 
     # 3. generated programs, every configuration
     cfgs = qa.all_configs()
-    n_rand = 1700 if quick else 9500
+    n_rand = 1500 if quick else 8000
     for i in range(n_rand):
-        cfg = cfgs[i % len(cfgs)]
+        cfg = cfgs[i % len(cfgs)].with_layout((i // len(cfgs)) % 2 == 1)
         ops, s = qa.gen_program(repo, cfg, rng, 12 if i % 3 == 0 else 36, want_refusal=(i % 6 == 0))
         account(cfg, ops, s)
         runs.append((cfg, ops, s))
@@ -191,7 +188,7 @@ def run(ctx):
                 break
     # 4. exhaustive small programs
     depth = 3 if quick else 4
-    ex_cfgs = [qa.Cfg(2, False, False), qa.Cfg(3, True, False), qa.Cfg(3, True, True)]
+    ex_cfgs = [qa.Cfg(2, False, False), qa.Cfg(3, True, False, True), qa.Cfg(3, True, True)]
     if not quick:
         ex_cfgs += [qa.Cfg(1, False, False), qa.Cfg(3, False, False), qa.Cfg(4, True, True)]
     for cfg in ex_cfgs:
